@@ -180,6 +180,47 @@ theorem replay_accepts_abort (o : List Ret) (file buf f : List Nat) (l : List Ca
   rw [h] at this
   simpa [replay, Out.log] using this
 
+/-- **A whole run.**  The header and every flushed buffer go through their own
+    loop with their own answers: if all loops return, the file is exactly the
+    concatenation of the buffers in flush order (what `Rt/Buffer`'s `disk` is:
+    `Props/C01.stream_fidelity` is about that concatenation). -/
+theorem writeAll_exact : ∀ (os : List (List Ret)) (bufs : List (List Nat)) (file f : List Nat),
+    writeAll os bufs file = some f → f = file ++ bufs.flatten
+  | _, [], file, f, h => by simp [writeAll] at h; simp [h]
+  | [], _ :: _, _, _, h => by simp [writeAll] at h
+  | o :: os, b :: bs, file, f, h => by
+    simp only [writeAll] at h
+    cases hq : writeEvbuf o file b with
+    | done f1 l =>
+      rw [hq] at h
+      have h1 := write_evbuf_exact o file b f1 l hq
+      have h2 := writeAll_exact os bs f1 f h
+      rw [h2, h1]; simp
+    | died f1 l => rw [hq] at h; simp at h
+    | running f1 r l => rw [hq] at h; simp at h
+
+/-- … and all loops do return when every answer of every loop moves at least one
+    byte and there are enough answers. -/
+theorem writeAll_terminates : ∀ (os : List (List Ret)) (bufs : List (List Nat)) (file : List Nat),
+    os.length = bufs.length →
+    (∀ i (h : i < os.length) (h' : i < bufs.length), Progress os[i] ∧ max 1 bufs[i].length ≤ os[i].length) →
+    writeAll os bufs file = some (file ++ bufs.flatten)
+  | [], [], file, _, _ => by simp [writeAll]
+  | [], _ :: _, _, hl, _ => by simp at hl
+  | _ :: _, [], _, hl, _ => by simp at hl
+  | o :: os, b :: bs, file, hl, hp => by
+    have h0 := hp 0 (by simp) (by simp)
+    obtain ⟨l, hq⟩ := write_evbuf_terminates o file b h0.1 h0.2
+    simp only [writeAll, hq]
+    have := writeAll_terminates os bs (file ++ b) (by simpa using hl)
+      (fun i h h' => by
+        have := hp (i + 1) (by simp; omega) (by simp; omega)
+        simp only [List.getElem_cons_succ] at this
+        exact this)
+    rw [this]; simp
+
+example : writeAll [[.count 3, .count 9], [.count 1, .count 1]] [[1, 2, 3, 4], [5, 6]] [0] = some [0, 1, 2, 3, 4, 5, 6] := by decide
+
 /-- a kernel that answers 0 for ever: the loop never ends (no bound in the code) -/
 theorem zero_progress_never_ends (n : Nat) (file buf : List Nat) (hb : buf ≠ []) :
     (writeEvbuf (List.replicate n (.count 0)) file buf).isDone = false := by
